@@ -23,6 +23,9 @@ STRENGTHENED = {
 }
 
 
+NEEDS = json.load(open('/verif/tools/seed_needs.json'))
+
+
 def first_paragraphs(meta_txt):
     paras = [p.strip() for p in meta_txt.split('\n\n') if p.strip()]
     return paras
@@ -53,6 +56,7 @@ def main():
         meta = dict(
             id=name, property=v['property'],
             written_by='independent sub-agent given only the property text and its own scratch worktree',
+            needs_in_order_to_manifest=NEEDS.get(name, ''),
             description=meta_txt[:6000],
             what_i_ran=dict(
                 tool='tools/verify_seed.sh (scratch worktree under /var/tmp/verif-scratch, removed afterwards)',
